@@ -86,25 +86,26 @@ macro "finish_same" : tactic => `(tactic|
      | ext k => simp))
 
 /-- `Apply` on the well-formed piece before: the well-formed piece after.
-    `up`: the root side is beyond `a`, beyond `b`, or nowhere (n1 is the root). -/
+    `up`: the root side is beyond one of the four outer nodes (beyond `c` or `d` when the tree was
+    re-rooted after `newNNI`: the case of commit 48c858a), or nowhere (n1 is the root). -/
 theorem applyP_mk (i1 i2 : Nat) (h1 : i1 ≤ 2) (h2 : i2 ≤ 2) (cross : Bool) (up : Option Ref)
-    (hup : up = none ∨ up = some .a ∨ up = some .b) (pre post : Ref → List Nat) :
+    (hup : up = none ∨ up = some .a ∨ up = some .b ∨ up = some .c ∨ up = some .d) (pre post : Ref → List Nat) :
     ∃ p', applyP (mkP (slices1 i1 cross false) (slices2 i2 cross false) up pre post) cross = some p' ∧
       p'.same (mkP (slices1 i1 cross true) (slices2 i2 cross true) up pre post) := by
   have e1 : i1 = 0 ∨ i1 = 1 ∨ i1 = 2 := by omega
   have e2 : i2 = 0 ∨ i2 = 1 ∨ i2 = 2 := by omega
   rcases e1 with rfl | rfl | rfl <;> rcases e2 with rfl | rfl | rfl <;> cases cross <;>
-    rcases hup with rfl | rfl | rfl <;> eval_heap <;> finish_same
+    rcases hup with rfl | rfl | rfl | rfl | rfl <;> eval_heap <;> finish_same
 
 /-- `Undo` on the well-formed piece after `Apply`: the piece before, back -/
 theorem undoP_mk (i1 i2 : Nat) (h1 : i1 ≤ 2) (h2 : i2 ≤ 2) (cross : Bool) (up : Option Ref)
-    (hup : up = none ∨ up = some .a ∨ up = some .b) (pre post : Ref → List Nat) :
+    (hup : up = none ∨ up = some .a ∨ up = some .b ∨ up = some .c ∨ up = some .d) (pre post : Ref → List Nat) :
     ∃ p', undoP (mkP (slices1 i1 cross true) (slices2 i2 cross true) up pre post) cross = some p' ∧
       p'.same (mkP (slices1 i1 cross false) (slices2 i2 cross false) up pre post) := by
   have e1 : i1 = 0 ∨ i1 = 1 ∨ i1 = 2 := by omega
   have e2 : i2 = 0 ∨ i2 = 1 ∨ i2 = 2 := by omega
   rcases e1 with rfl | rfl | rfl <;> rcases e2 with rfl | rfl | rfl <;> cases cross <;>
-    rcases hup with rfl | rfl | rfl <;> eval_heap <;> finish_same
+    rcases hup with rfl | rfl | rfl | rfl | rfl <;> eval_heap <;> finish_same
 
 /- ## the promises hold on every well-formed piece -/
 
@@ -147,26 +148,26 @@ macro "eval_inv" : tactic => `(tactic|
 set_option maxHeartbeats 8000000 in
 /-- pairing and symmetric adjacency on every well-formed piece, before and after `Apply` -/
 theorem mkP_invariants (i1 i2 : Nat) (h1 : i1 ≤ 2) (h2 : i2 ≤ 2) (cross applied : Bool) (up : Option Ref)
-    (hup : up = none ∨ up = some .a ∨ up = some .b) (pre post : Ref → List Nat) :
+    (hup : up = none ∨ up = some .a ∨ up = some .b ∨ up = some .c ∨ up = some .d) (pre post : Ref → List Nat) :
     pairing (mkP (slices1 i1 cross applied) (slices2 i2 cross applied) up pre post) = true ∧
     symmetric (mkP (slices1 i1 cross applied) (slices2 i2 cross applied) up pre post) = true := by
   have e1 : i1 = 0 ∨ i1 = 1 ∨ i1 = 2 := by omega
   have e2 : i2 = 0 ∨ i2 = 1 ∨ i2 = 2 := by omega
   rcases e1 with rfl | rfl | rfl <;> rcases e2 with rfl | rfl | rfl <;> cases cross <;> cases applied <;>
-    rcases hup with rfl | rfl | rfl <;> eval_inv
+    rcases hup with rfl | rfl | rfl | rfl | rfl <;> eval_inv
 
 set_option maxHeartbeats 8000000 in
 /-- every node has as many parent branches after `Apply` as before (at most one, by the next
     statement): the branches still point away from the root -/
 theorem mkP_incoming (i1 i2 : Nat) (h1 : i1 ≤ 2) (h2 : i2 ≤ 2) (cross : Bool) (up : Option Ref)
-    (hup : up = none ∨ up = some .a ∨ up = some .b) (pre post : Ref → List Nat) (x : Ref) :
+    (hup : up = none ∨ up = some .a ∨ up = some .b ∨ up = some .c ∨ up = some .d) (pre post : Ref → List Nat) (x : Ref) :
     incoming (mkP (slices1 i1 cross true) (slices2 i2 cross true) up pre post) x =
       incoming (mkP (slices1 i1 cross false) (slices2 i2 cross false) up pre post) x ∧
     incoming (mkP (slices1 i1 cross false) (slices2 i2 cross false) up pre post) x ≤ 1 := by
   have e1 : i1 = 0 ∨ i1 = 1 ∨ i1 = 2 := by omega
   have e2 : i2 = 0 ∨ i2 = 1 ∨ i2 = 2 := by omega
   rcases e1 with rfl | rfl | rfl <;> rcases e2 with rfl | rfl | rfl <;> cases cross <;>
-    rcases hup with rfl | rfl | rfl <;> cases x <;> eval_inv
+    rcases hup with rfl | rfl | rfl | rfl | rfl <;> cases x <;> eval_inv
 
 /- ## abstraction to the six-node `Heap` of `Model/C17.lean` -/
 
@@ -214,12 +215,13 @@ structure Fresh (H : Heap) (i1 i2 : Nat) (cross : Bool) : Prop where
   d : H.od.isUp = false
   ab : ¬(H.oa.isUp = true ∧ H.ob.isUp = true)
 
-theorem upOf_cases (H : Heap) : upOf H = none ∨ upOf H = some .a ∨ upOf H = some .b := by
+theorem upOf_cases (H : Heap) :
+    upOf H = none ∨ upOf H = some .a ∨ upOf H = some .b ∨ upOf H = some .c ∨ upOf H = some .d := by
   unfold upOf
   split
   · exact Or.inr (Or.inl rfl)
   · split
-    · exact Or.inr (Or.inr rfl)
+    · exact Or.inr (Or.inr (Or.inl rfl))
     · exact Or.inl rfl
 
 /-- every fresh heap is the abstraction of a well-formed pointer piece -/
@@ -238,25 +240,25 @@ theorem absH_mkP {H : Heap} {i1 i2 : Nat} {cross : Bool} (hf : Fresh H i1 i2 cro
 
 /-- the square on `Heap`: the Go statements on the pointer piece, then α = α, then `applyH` -/
 theorem applyP_absH (dat : HData) (i1 i2 : Nat) (h1 : i1 ≤ 2) (h2 : i2 ≤ 2) (cross : Bool) (up : Option Ref)
-    (hup : up = none ∨ up = some .a ∨ up = some .b) (pre post : Ref → List Nat) :
+    (hup : up = none ∨ up = some .a ∨ up = some .b ∨ up = some .c ∨ up = some .d) (pre post : Ref → List Nat) :
     applyH (absH dat (mkP (slices1 i1 cross false) (slices2 i2 cross false) up pre post)) cross =
       some (absH dat (mkP (slices1 i1 cross true) (slices2 i2 cross true) up pre post)) := by
   have e1 : i1 = 0 ∨ i1 = 1 ∨ i1 = 2 := by omega
   have e2 : i2 = 0 ∨ i2 = 1 ∨ i2 = 2 := by omega
   rcases e1 with rfl | rfl | rfl <;> rcases e2 with rfl | rfl | rfl <;> cases cross <;>
-    rcases hup with rfl | rfl | rfl <;>
+    rcases hup with rfl | rfl | rfl | rfl | rfl <;>
     simp [applyH, absH, mkP, slices1, slices2, lab1, lab2, rot1, triList, Tri.mem, toTri, Tri.idx, Tri.set,
-      Outer.isUp]
+      Outer.isUp, Heap.outer]
 
 theorem undoP_absH (dat : HData) (i1 i2 : Nat) (h1 : i1 ≤ 2) (h2 : i2 ≤ 2) (cross : Bool) (up : Option Ref)
-    (hup : up = none ∨ up = some .a ∨ up = some .b) (pre post : Ref → List Nat) :
+    (hup : up = none ∨ up = some .a ∨ up = some .b ∨ up = some .c ∨ up = some .d) (pre post : Ref → List Nat) :
     undoH (absH dat (mkP (slices1 i1 cross true) (slices2 i2 cross true) up pre post)) cross =
       some (absH dat (mkP (slices1 i1 cross false) (slices2 i2 cross false) up pre post)) := by
   have e1 : i1 = 0 ∨ i1 = 1 ∨ i1 = 2 := by omega
   have e2 : i2 = 0 ∨ i2 = 1 ∨ i2 = 2 := by omega
   rcases e1 with rfl | rfl | rfl <;> rcases e2 with rfl | rfl | rfl <;> cases cross <;>
-    rcases hup with rfl | rfl | rfl <;>
+    rcases hup with rfl | rfl | rfl | rfl | rfl <;>
     simp [undoH, absH, mkP, slices1, slices2, lab1, lab2, rot1, triList, Tri.mem, toTri, Tri.idx, Tri.set,
-      Outer.isUp]
+      Outer.isUp, Heap.outer]
 
 end Gotree.C17
